@@ -1,11 +1,14 @@
 package props
 
 import (
+	"bytes"
 	"context"
 	"errors"
 	"fmt"
+	"net/http"
 	"strings"
 	"testing"
+	"testing/synctest"
 	"time"
 
 	connect "github.com/bufbuild/connect-go"
@@ -13,6 +16,7 @@ import (
 	"verifharness/bsched"
 	"verifharness/ev"
 	"verifharness/memhttp"
+	"verifharness/refwire"
 )
 
 // C15 — cancellation and expiry surface as canceled / deadline_exceeded.
@@ -514,15 +518,28 @@ func c15Sequential(t *testing.T, c *ev.Collector) {
 	for _, p := range AllProtos {
 		for _, kind := range AllKinds {
 			for _, v := range vars {
-				for _, sendFirst := range []int{0, 1} {
+				for _, sendFirst := range []int{0, 1, 10, 11} {
 					idx++
 					if !ev.Mine(idx) {
 						continue
+					}
+					// 10, 11: the same with a client read limit (40 bytes) below the size of the error,
+					// where the error does not travel in an envelope (see the known finding of C09)
+					readMax := 0
+					if sendFirst >= 10 {
+						sendFirst -= 10
+						readMax = 40
+						if !(p == PGRPC || (p == PConnect && kind == KUnary)) {
+							continue
+						}
 					}
 					if sendFirst == 1 && !kind.ServerStreams() {
 						continue
 					}
 					key := fmt.Sprintf("seq/%s/%s/%s/sent%d", p, kind, v.name, sendFirst)
+					if readMax > 0 {
+						key += fmt.Sprintf("/readmax%d", readMax)
+					}
 					c.Case(key, true)
 					Bubble(t, func() {
 						h := NewHandler(kind, func(ctx context.Context, st HStream) error {
@@ -532,7 +549,11 @@ func c15Sequential(t *testing.T, c *ev.Collector) {
 							return v.err
 						})
 						tr := &memhttp.Transport{Handler: h, Proto: 2, SyncCloseReq: true}
-						cl := NewClient(tr, Cfg{Proto: p, Comp: CompNone})
+						var copts []connect.ClientOption
+						if readMax > 0 {
+							copts = append(copts, connect.WithReadMaxBytes(readMax))
+						}
+						cl := NewClient(tr, Cfg{Proto: p, Comp: CompNone}, copts...)
 						var res CallResult
 						g := Guarded(func() { res = RunCall(context.Background(), cl, kind, [][]byte{{1}}, nil) }, tr)
 						c.AddTransitions(3)
@@ -569,6 +590,7 @@ func TestC15(t *testing.T) {
 		if _, err := ev.LoadReplay(&k); err != nil {
 			// sequential cases are replayed by re-running the family
 			c15Sequential(t, c)
+			c15PartialOversize(t, c)
 			return
 		}
 		schedRoundRobin = k.RR
@@ -580,6 +602,7 @@ func TestC15(t *testing.T) {
 	c.Bound("delay_bound", map[bool]string{false: "1", true: "1 for all scenarios, 2 for programs of length <= 2 and the Call* wrappers"}[thorough])
 	c.Bound("max_client_program_length", map[bool]int{false: 3, true: 4}[thorough])
 	c15Sequential(t, c)
+	c15PartialOversize(t, c)
 	cases := c15Cases(thorough)
 	for i, k := range cases {
 		if !ev.Mine(i) {
@@ -589,5 +612,116 @@ func TestC15(t *testing.T) {
 			break
 		}
 		c15Explore(t, c, k)
+	}
+}
+
+// c15PartialOversize: the context ends while Receive is blocked skipping a
+// message larger than the client's read limit, of which only a part has
+// arrived (the peer announced 100 bytes, sent 0 or 50 of them and went quiet).
+// The blocked Receive, and a Receive called afterwards, report the context's
+// error.
+func c15PartialOversize(t *testing.T, c *ev.Collector) {
+	idx := 0
+	for _, p := range AllProtos {
+		for _, kind := range []Kind{KServer, KBidi} {
+			for _, dl := range []bool{false, true} {
+				for _, arrived := range []int{5, 55} {
+					idx++
+					if !ev.Mine(idx) {
+						continue
+					}
+					key := fmt.Sprintf("partial-oversize/%s/%s/deadline=%v/arrived%d", p, kind, dl, arrived)
+					c.Case(key, true)
+					Bubble(t, func() {
+						h := http.HandlerFunc(func(w http.ResponseWriter, r *http.Request) {
+							w.Header().Set("Content-Type", contentType(p, kind, false))
+							w.WriteHeader(200)
+							_, _ = w.Write(refwire.Envelope(0, bytes.Repeat([]byte{'x'}, 100))[:arrived])
+							w.(http.Flusher).Flush()
+							<-r.Context().Done()
+						})
+						tr := &memhttp.Transport{Handler: h, Proto: 2, SyncCloseReq: true, PromptCancel: true}
+						cl := NewClient(tr, Cfg{Proto: p, Comp: CompNone}, connect.WithReadMaxBytes(6))
+						ctx, cancel := context.WithCancel(context.Background())
+						if dl {
+							ctx, cancel = context.WithTimeout(context.Background(), time.Minute)
+						}
+						defer cancel()
+						var recvErr, afterErr error
+						done := make(chan struct{})
+						go func() {
+							defer close(done)
+							switch kind {
+							case KServer:
+								s, err := cl.CallServerStream(ctx, connect.NewRequest(&BV{Value: []byte{1}}))
+								if err != nil {
+									recvErr, afterErr = err, err
+									return
+								}
+								s.Receive()
+								recvErr = s.Err()
+								s.Receive()
+								afterErr = s.Err()
+								_ = s.Close()
+							default:
+								s := cl.CallBidiStream(ctx)
+								_ = s.Send(&BV{Value: []byte{1}})
+								_, recvErr = s.Receive()
+								_, afterErr = s.Receive()
+								_ = s.CloseRequest()
+								_ = s.CloseResponse()
+							}
+						}()
+						synctest.Wait() // Receive is blocked inside the oversize message
+						early := false
+						select {
+						case <-done:
+							early = true
+						default:
+						}
+						if dl {
+							time.Sleep(2 * time.Minute)
+						} else {
+							cancel()
+						}
+						synctest.Wait()
+						c.AddTransitions(4)
+						c.AddStates(4)
+						c.AddTraces(1)
+						tags := []string{"proto=" + p.String(), "kind=" + kind.String(), "oversize-partly-arrived"}
+						select {
+						case <-done:
+						default:
+							c.Violation("TestC15", "terminates", "deadlock", tags, key, "%s: the context is done and the call is still blocked\n%s", key, trimStacks(bsched.AllStacks()))
+							c.Outcome("deadlock")
+							tr.AbortAll()
+							synctest.Wait()
+							select {
+							case <-done:
+							default:
+								BailIfStuck(c, GuardResult{Stuck: true})
+							}
+							return
+						}
+						if early {
+							c.HarnessError("%s: the call ended before the context did (%v)", key, recvErr)
+							return
+						}
+						want := "err:canceled"
+						if dl {
+							want = "err:deadline_exceeded"
+						}
+						for i, e := range []error{recvErr, afterErr} {
+							if cls := classifyErr(e); cls != want {
+								c.Violation("TestC15", "right-code", "code:"+cls, append(tags, "op=R"), key, "%s: Receive #%d reported %s (%v); want %s", key, i+1, cls, e, want)
+								c.Outcome("violation")
+								return
+							}
+						}
+						c.Outcome("ok")
+					})
+				}
+			}
+		}
 	}
 }
